@@ -18,6 +18,7 @@ V = os.path.dirname(os.path.dirname(os.path.abspath(__file__)))
 args = sys.argv[1:]
 tier = 'quick'
 baseline = False
+as_pid = None
 sel = []
 while args:
     a = args.pop(0)
@@ -25,6 +26,8 @@ while args:
         tier = args.pop(0)
     elif a == '--baseline':
         baseline = True
+    elif a == '--as':
+        as_pid = args.pop(0)  # judge the selected patches with another property's check
     else:
         sel.append(a)
 patches = sorted(glob.glob(os.path.join(V, 'mutants', '*.patch'))) + sorted(glob.glob(os.path.join(V, 'seeded', '*', 'patch.diff')))
@@ -61,7 +64,7 @@ def base_groups(pid):
 
 for p in patches:
     name = name_of(p)
-    pid = name.replace('seeded:', '').replace('-', '_').split('_')[0]
+    pid = as_pid or name.replace('seeded:', '').replace('-', '_').split('_')[0]
     d = tempfile.mkdtemp(prefix='verif-mut-' + name.replace(':', '-') + '-')
     try:
         shutil.copytree('/repo/src', os.path.join(d, 'src'))
